@@ -226,15 +226,20 @@ func (ctx *cmdContext) infoUnlocked(cs *clientState) string {
 		flags.WriteString("N")
 	}
 
+	// the other connection may be changing these fields right now
+	cs.mu.Lock()
+	csName, csDb, csResp := cs.name, cs.selectedDb, cs.respVersion
+	cs.mu.Unlock()
+
 	info = append(info,
 		fmt.Sprintf("id=%d", cs.id),
-		"name="+cs.name,
-		fmt.Sprintf("db=%d", cs.selectedDb),
+		"name="+csName,
+		fmt.Sprintf("db=%d", csDb),
 		fmt.Sprintf("multi=%d", multi),
 		fmt.Sprintf("flags=%s", flags.String()),
 		"cmd="+ctx.cmdToken,
 		"user="+cs.user,
-		fmt.Sprintf("resp=%d", cs.respVersion),
+		fmt.Sprintf("resp=%d", csResp),
 	)
 
 	var sb strings.Builder
